@@ -283,6 +283,75 @@ fn scenario_expiry(rep: &mut Report, r: &mut Rng, clock: &Clock, d: Duration, wa
     rep.sample_every(89, || witness.clone());
 }
 
+
+/// The application itself is slow: the expiry elapses BETWEEN intercept_request and
+/// intercept_response of one exchange on the key.  State that has been idle for longer than the
+/// expiry must not come back to life afterwards.
+fn scenario_slow_application(rep: &mut Report, r: &mut Rng, clock: &Clock, d: Duration) {
+    rep.eval();
+    let witness = format!("slow application: expiry {:?}; cached download and buffered upload, then a plain request on the same key whose application callback takes expiry+2ms, then the follow-up block; virtual_time={}", d, clock.virt);
+    set_case_str(&witness);
+    let mut mid = 0u16;
+    let mut server = Server::new(120, d);
+    let body = body_bytes(r.next_u64(), 64 * 5 + 3);
+    let mut dl = match dl_start(&mut server, 3, vec!["slow".into()], body, 2, &mut mid) {
+        Ok(x) => x,
+        Err(e) => {
+            rep.violation("slow-app-setup", e, witness);
+            return;
+        }
+    };
+    let mut ul = Ul { ep: 3, path: vec!["slowup".into()], body: body_bytes(r.next_u64(), 32 + 9), szx: 1, next: 0 };
+    if let Err(e) = ul_block(&mut server, &mut ul, &mut mid) {
+        rep.violation("slow-app-setup", e, witness);
+        return;
+    }
+    // a plain request on each key reaches the application, which dawdles past the expiry
+    for (code, path) in [(1u8, "slow"), (3u8, "slowup")] {
+        let mut q = ReqSpec::new(code, &[path]);
+        mid = mid.wrapping_add(1);
+        q.mid = mid;
+        let mut slow_app = |_q: &CoapRequest<CEp>| {
+            clock.advance(d + EPS);
+            AppReply::content(b"ok".to_vec())
+        };
+        let ex = server.exchange(&q.bytes(), 3, &mut slow_app);
+        if !ex.app_called {
+            rep.violation("slow-app-setup", format!("plain request did not reach the application: {}", ex.summary()), witness);
+            return;
+        }
+    }
+    match dl_next(&mut server, &mut dl, &mut mid) {
+        Ok(false) => {}
+        Ok(true) => {
+            rep.violation("expired-download-state-used", format!("a block was served from a cache entry that had been idle for longer than {:?} (the expiry elapsed inside the application callback of an earlier exchange on the key)", d), witness);
+            return;
+        }
+        Err(e) => {
+            rep.violation("expired-download-state-used", e, witness);
+            return;
+        }
+    }
+    let offset = ul.next * szx_size(ul.szx);
+    match ul_finish(&mut server, &mut ul, &mut mid) {
+        Err(e) => {
+            rep.violation("expired-upload-panic", e, witness);
+            return;
+        }
+        Ok(None) => rep.count("expired_upload_refused"),
+        Ok(Some(got)) => {
+            let old = &ul.body[..offset];
+            let overlap = got.iter().zip(old.iter()).filter(|(a, b)| a == b).count();
+            if got.len() >= offset && overlap * 2 > offset {
+                rep.violation("expired-upload-state-used", format!("the delivered body starts with {} of the {} bytes buffered before the expiry elapsed inside an application callback", overlap, offset), witness);
+                return;
+            }
+        }
+    }
+    rep.count("slow_application_histories_held");
+    rep.distinct(mix(&[4, d.as_millis() as u64]));
+}
+
 fn scenario_reclaim(rep: &mut Report, r: &mut Rng, clock: &Clock, d: Duration, n: u32, traffic: bool) {
     rep.eval();
     let witness = format!("reclamation: expiry {:?}, {} abandoned transfers, other keys busy meanwhile: {}, virtual_time={}", d, n, traffic, clock.virt);
@@ -402,7 +471,8 @@ pub fn run_c20(ctx: &mut Ctx) {
         let durations = [Duration::from_secs(1), Duration::from_secs(120), Duration::from_secs(3600), Duration::from_millis(50)];
         for _ in 0..budget {
             let d = *r.pick(&durations);
-            match r.below(3) {
+            match r.below(4) {
+                3 => scenario_slow_application(rep, &mut r, &vc, d),
                 0 => {
                     let n_other = match r.below(4) {
                         0 => 1,
@@ -455,6 +525,7 @@ pub fn run_c20(ctx: &mut Ctx) {
         rep.floor("expiry_histories_with_other_traffic", 1);
         rep.floor("reclaim_histories_held", 1);
         rep.floor("reclaim_histories_with_other_traffic", 1);
+        rep.floor("slow_application_histories_held", 1);
         vclock::set_frozen(false);
     } else {
         rep.note("virtual clock not available in this build: real-time mode only (must-be-expired direction)");
